@@ -1,13 +1,56 @@
 (* Properties/C08.v — Gaussian elimination: returned solutions solve the system,
-   singular systems are refused, malformed systems get errors.  Statements only;
+   singular systems are refused, malformed systems get errors, and the exported
+   triangular substitution routines solve their systems.  Statements only;
    every proof is `exact` of a lemma of Proofs/Gauss.v.  All statements are about
-   the R instance of the model (exact arithmetic); rounding is measured by the
-   correspondence check and the exact oracle, not proved. *)
-From Coq Require Import ZArith List Reals Lia.
+   the R instance of the model (exact arithmetic); rounding (the backward-error
+   envelope, "well-conditioned systems are never refused") is measured by the
+   correspondence check and the exact oracle, not proved.
+   The model is Model/Gauss.v = spindalis/src/solvers/gaussian_elim.rs after the
+   repair 20730a8 (flagged elimination / zero row => Err SingularMatrix, empty
+   system => Err NonSquareMatrix). *)
+From Coq Require Import ZArith List Reals Lia Floats.
 From SV Require Import Base.Num Base.Outcome Base.Mat Model.Subst Model.Gauss Proofs.Gauss.
 Import ListNotations.
 Local Open Scope R_scope.
 
+(* whenever elimination returns a vector, it solves the ORIGINAL system (and the shapes agree) *)
+Theorem c08_solves : forall (h w lb : nat) (A : mat R) (b : vec R) (tol : R) (x : vec R),
+  0 < tol -> ge h w A lb b tol = Ok x ->
+  h = w /\ h = lb /\ forall i, (i < h)%nat -> Rsum_n h (fun j => A i j * x j) = b i.
+Proof. exact Proofs.Gauss.c08_solves. Qed.
+Check c08_solves : forall (h w lb : nat) (A : mat R) (b : vec R) (tol : R) (x : vec R),
+  0 < tol -> ge h w A lb b tol = Ok x ->
+  h = w /\ h = lb /\ forall i, (i < h)%nat -> Rsum_n h (fun j => A i j * x j) = b i.
+Print Assumptions c08_solves.
+
+(* the same at the boundary that is extracted and run against the crate (nested lists) *)
+Theorem c08_lists : forall (rows : list (list R)) (rhs : list R) (tol : R) (xs : list R),
+  0 < tol -> ge_lists rows rhs tol = Ok xs ->
+  (forall r, In r rows -> length r = length rows) /\ length rhs = length rows /\ length xs = length rows /\
+  forall i, (i < length rows)%nat ->
+    Rsum_n (length rows) (fun j => nth j (nth i rows []) 0 * nth j xs 0) = nth i rhs 0.
+Proof. exact Proofs.Gauss.c08_lists. Qed.
+Check c08_lists : forall (rows : list (list R)) (rhs : list R) (tol : R) (xs : list R),
+  0 < tol -> ge_lists rows rhs tol = Ok xs ->
+  (forall r, In r rows -> length r = length rows) /\ length rhs = length rows /\ length xs = length rows /\
+  forall i, (i < length rows)%nat ->
+    Rsum_n (length rows) (fun j => nth j (nth i rows []) 0 * nth j xs 0) = nth i rhs 0.
+Print Assumptions c08_lists.
+
+(* a matrix with a non-trivial left null vector (zero / repeated / dependent rows or columns,
+   any singular matrix) is refused with SingularMatrix for EVERY right-hand side *)
+Theorem c08_singular_refused : forall (n : nat) (A : mat R) (tol : R), 0 < tol ->
+  (exists w : vec R, (exists i, (i < n)%nat /\ w i <> 0) /\
+      forall j, (j < n)%nat -> Rsum_n n (fun i => w i * A i j) = 0) ->
+  forall b : vec R, ge n n A n b tol = Err ESingularMatrix.
+Proof. exact Proofs.Gauss.c08_singular_refused. Qed.
+Check c08_singular_refused : forall (n : nat) (A : mat R) (tol : R), 0 < tol ->
+  (exists w : vec R, (exists i, (i < n)%nat /\ w i <> 0) /\
+      forall j, (j < n)%nat -> Rsum_n n (fun i => w i * A i j) = 0) ->
+  forall b : vec R, ge n n A n b tol = Err ESingularMatrix.
+Print Assumptions c08_singular_refused.
+
+(* malformed systems get error values; the solver never panics *)
 Theorem c08_shape : forall (h w lb : nat) (A : mat R) (b : vec R) (tol : R),
   (h <> w -> ge h w A lb b tol = Err ENonSquareMatrix) /\
   (h = w -> h <> lb -> ge h w A lb b tol = Err ENumArgumentsMismatch) /\
@@ -21,5 +64,50 @@ Check c08_shape : forall (h w lb : nat) (A : mat R) (b : vec R) (tol : R),
   (forall y, ge h w A lb b tol <> Panic y).
 Print Assumptions c08_shape.
 
-Example c08_nonvacuous_shape : ge 2 3 (fun _ _ => 1) 2 (fun _ => 1) 1 = Err ENonSquareMatrix.
-Proof. reflexivity. Qed.
+(* back / forward substitution solve the upper / lower triangle of their matrix (the other
+   triangle is never read) whenever the diagonal is non-zero *)
+Theorem c08_substitution : forall (n : nat) (a : mat R) (b s0 : vec R),
+  (0 < n)%nat -> (forall i, (i < n)%nat -> a i i <> 0) ->
+  (exists x, back_substitution a n b s0 = Ok x /\
+     forall i, (i < n)%nat -> Rsum_n n (fun j => (if (j <? i)%nat then 0 else a i j) * x j) = b i) /\
+  (forall i, (i < n)%nat ->
+     Rsum_n n (fun j => (if (i <? j)%nat then 0 else a i j) * forward_substitution a n b s0 j) = b i).
+Proof. exact Proofs.Gauss.c08_substitution. Qed.
+Check c08_substitution : forall (n : nat) (a : mat R) (b s0 : vec R),
+  (0 < n)%nat -> (forall i, (i < n)%nat -> a i i <> 0) ->
+  (exists x, back_substitution a n b s0 = Ok x /\
+     forall i, (i < n)%nat -> Rsum_n n (fun j => (if (j <? i)%nat then 0 else a i j) * x j) = b i) /\
+  (forall i, (i < n)%nat ->
+     Rsum_n n (fun j => (if (i <? j)%nat then 0 else a i j) * forward_substitution a n b s0 j) = b i).
+Print Assumptions c08_substitution.
+
+(* ... so for a genuinely triangular matrix they solve  a x = b *)
+Theorem c08_substitution_triangular : forall (n : nat) (a : mat R) (b s0 : vec R),
+  (0 < n)%nat -> (forall i, (i < n)%nat -> a i i <> 0) ->
+  ((forall i j, (j < i < n)%nat -> a i j = 0) ->
+   exists x, back_substitution a n b s0 = Ok x /\
+     forall i, (i < n)%nat -> Rsum_n n (fun j => a i j * x j) = b i) /\
+  ((forall i j, (i < j < n)%nat -> a i j = 0) ->
+   forall i, (i < n)%nat -> Rsum_n n (fun j => a i j * forward_substitution a n b s0 j) = b i).
+Proof. exact Proofs.Gauss.c08_substitution_triangular. Qed.
+Check c08_substitution_triangular : forall (n : nat) (a : mat R) (b s0 : vec R),
+  (0 < n)%nat -> (forall i, (i < n)%nat -> a i i <> 0) ->
+  ((forall i j, (j < i < n)%nat -> a i j = 0) ->
+   exists x, back_substitution a n b s0 = Ok x /\
+     forall i, (i < n)%nat -> Rsum_n n (fun j => a i j * x j) = b i) /\
+  ((forall i j, (i < j < n)%nat -> a i j = 0) ->
+   forall i, (i < n)%nat -> Rsum_n n (fun j => a i j * forward_substitution a n b s0 j) = b i).
+Print Assumptions c08_substitution_triangular.
+
+(* ---- non-vacuity ---------------------------------------------------------- *)
+(* the hypothesis "ge ... = Ok x" is satisfiable over R ... *)
+Example c08_nonvacuous_ok : exists x, ge 1 1 (fun _ _ => 2) 1 (fun _ => 6) (1 / 10) = Ok x.
+Proof. exact Proofs.Gauss.ex_ge_ok. Qed.
+(* ... the null-vector hypothesis is met by the all-ones 2x2 matrix, which is therefore refused ... *)
+Example c08_nonvacuous_singular : forall b : vec R, ge 2 2 (fun _ _ => 1) 2 b (1 / 1000) = Err ESingularMatrix.
+Proof. apply c08_singular_refused; [lra | exact Proofs.Gauss.ex_singular_hyp]. Qed.
+(* ... and the very same Gallina term, run on IEEE doubles, solves a 2x2 system that needs the row swap
+   ([[1,2],[3,4]] x = [5,6] : x = [-4, 4.5]) *)
+Example c08_float_run :
+  @ge_lists float FNum [[1; 2]; [3; 4]]%float [5; 6]%float 0x1p-20%float = Ok [-4; 4.5]%float.
+Proof. vm_compute. reflexivity. Qed.
